@@ -9,6 +9,8 @@ def _scan_one(args):
     drv, state, groups, tid = args
     try:
         import importlib
+        from . import bystander
+        bystander.install()
         mod = importlib.import_module("harness.drivers." + drv)
         ev, st = mod.scan(state, groups, tid)
         return tid, ev, st, None
